@@ -40,7 +40,11 @@ ROUNDS = [("/tmp/det_all.log", "round 1 (machinery as first built, commit ba9e68
           ("/tmp/try_w3a.log", "wave 3, first evaluation with the machinery frozen at commit da892cb (descriptions not used)"),
           ("/tmp/try_w3b.log", "final machinery (commit 13e2195, after the strengthening that followed wave 3)"),
           ("/tmp/try_w3c.log", "final machinery (commit 13e2195, after the strengthening that followed wave 3)"),
-          ("/tmp/try_w3d.log", "final machinery (commit 2410502: F7 residual 8 units, routes must offer the previous proceeds)")]
+          ("/tmp/try_w3d.log", "final machinery (commit 2410502: F7 residual 8 units, routes must offer the previous proceeds)"),
+          ("/tmp/try_w4a.log", "wave 4, first evaluation with the machinery frozen at commit c8b65a0 (descriptions not used)"),
+          ("/tmp/try_w4b.log", "wave 4, first evaluation with the machinery frozen at commit c8b65a0 (descriptions not used)"),
+          ("/tmp/try_w4c.log", "final machinery (commit 7e0a4e5, after the strengthening that followed wave 4)"),
+          ("/tmp/try_w4d.log", "final machinery (commit 7e0a4e5, after the strengthening that followed wave 4)")]
 det = []
 base = os.path.basename(patchfile)
 for f, label in ROUNDS:
